@@ -229,7 +229,12 @@ class Rewriter:
                 ms = list(d['members']); ms[i] = (ms[i][0], self.near(ms[i][1]))
                 return p.struct(ms)
             if d['kind'] == 'table':
-                c = r.randrange(3)
+                c = r.randrange(4)
+                if c == 3 and d['entries']:
+                    # one entry deprecated on one side only: a DeletedEntry is never written and is skipped on read
+                    self.rules.append('near:entry-deleted')
+                    i = r.randrange(len(d['entries'])); es = list(d['entries']); es[i] = (es[i][0], es[i][1], not es[i][2])
+                    return p.table(es, hash_=d['hash'], ns_name=d['ns_name'])
                 if c == 0:
                     self.rules.append('near:table-hash'); return p.table(d['entries'], hash_=((d['hash'] or 0) + 1) % 2 ** 64)
                 if c == 1 and d['entries']:
@@ -267,6 +272,11 @@ def gen_pairs(seed, count, depth):
         (('arr', ('carr', P('float'), 3), 2), ('arr', ('carr', P('float'), 4), 2), -1),
         (('vec', ('arr', ('str', 'char'), 2)), ('vec', ('arr', ('str', 'char'), 3)), -1),
     ]
+    # a table revision that deprecates one entry (hand-picked: the random near-miss hits it rarely)
+    ta = pool.table([(i32, 1, True), (('str', 'char'), 2, True), (u8, 3, True)], hash_=99, name='FxTabA')
+    tb = pool.table([(i32, 1, True), (('str', 'char'), 2, False), (u8, 3, True)], hash_=99, name='FxTabB')
+    fixed.append((ta, tb, -1))
+    fixed.append((('vec', ta), ('vec', tb), -1))
     for a, b, exp in fixed:
         pairs.append((a, b, exp, ['fixed']))
     while len(pairs) < count and tries < count * 50:
